@@ -95,7 +95,7 @@ def plot(self, newfigure=True, show=True):
         subplot('Z20')
         subplot('Z2c')
         subplot('Z2s')
-        data = self.r_singularity_vs_varphi
+        data = np.copy(self.r_singularity_vs_varphi)
         data[data > 1e20] = np.nan
         subplot('r_singularity', data=data, y0=True)
         if self.order != 'r2':
